@@ -211,7 +211,7 @@ class OpRecord:
     __slots__ = ('tid', 'idx', 'op', 'inv', 'ret', 'res', 'live', 'inp',
                  'cancelled', 'dirty', 'switch_at_inv', 'snap_before',
                  'snap_after', 'zone', 'aborted', 'version', 'twin',
-                 'ids_before', 'ids_after')
+                 'ids_before', 'ids_after', 'kept', 'kept_version')
 
 
 def identity_snapshot(live):
@@ -431,6 +431,7 @@ class RunB:
         rec.version = 0
         rec.snap_before = rec.snap_after = None
         rec.ids_before = rec.ids_after = None
+        rec.kept = rec.kept_version = None
         rec.switch_at_inv = self.model_switch
         rec.zone = self.zone
         k = op['op']
@@ -480,6 +481,41 @@ class RunB:
             elif k == 'mutate':
                 src = self.slot(op['ref'])
                 res = ['mutate', self.mutate(src, op.get('how', 0))]
+            elif k == 'keep_part':
+                # the caller keeps only a PART of a result (the properties of
+                # a decoded header, the arguments table of a method) and
+                # drops the rest: the part must stay what it is, whatever the
+                # library does when the parent is collected
+                src = self.slot(op['ref'])
+                res = ['skip']
+                if src is not None and src.live is not None:
+                    o = src.live
+                    part = None
+                    if isinstance(o, lib.header.ContentHeader):
+                        part = o.properties
+                    elif isinstance(o, lib.base.Frame):
+                        for s_ in type(o).__slots__:
+                            v_ = getattr(o, s_, None)
+                            if isinstance(v_, (dict, list)):
+                                part = v_
+                                break
+                    elif isinstance(o, dict):
+                        for v_ in o.values():
+                            if isinstance(v_, (dict, list)):
+                                part = v_
+                                break
+                    if part is not None:
+                        import gc
+                        src.version += 1   # (a concurrent marshal_slot of
+                        src.dirty = True   #  this object is not judged)
+                        src.live = part
+                        src.inp = None
+                        src.kept = canon_value(part)
+                        src.kept_version = src.version
+                        self.count(self.fired, 'kept_part_parent_dropped')
+                        o = part = v_ = None
+                        gc.collect()
+                        res = ['kept-part']
             elif k == 'setattr':
                 # the caller assigns an attribute of a frame it holds
                 src = self.slot(op['ref'])
@@ -501,7 +537,8 @@ class RunB:
                             res = canon_exc(e)
             elif k == 'marshal_slot':
                 src = self.slot(op['ref'])
-                if src is None or src.live is None or not isinstance(
+                if src is None or src.live is None or \
+                        src.kept is not None or not isinstance(
                         src.live, (lib.base.Frame,
                                    lib.header.ContentHeader,
                                    lib.body.ContentBody,
@@ -510,11 +547,12 @@ class RunB:
                     res = ['skip']
                 else:
                     rec.dirty = src.dirty
-                    rec.inp = src.live
+                    obj = src.live   # (another thread may swap src.live)
+                    rec.inp = obj
                     if src.tid != tid:
                         self.count(self.fired, 'shared_object')
-                    rec.snap_before = canon_frame(src.live)
-                    rec.ids_before = identity_snapshot(src.live)
+                    rec.snap_before = canon_frame(obj)
+                    rec.ids_before = identity_snapshot(obj)
                     self.in_lib[tid] = True
                     if src.op['op'] == 'construct':
                         ch = src.op['frame'].get('ch', 0)
@@ -523,14 +561,14 @@ class RunB:
                     v0 = src.version
                     t0 = len(self.toggle_seqs)
                     try:
-                        out = lib.frame.marshal(src.live, ch)
+                        out = lib.frame.marshal(obj, ch)
                         res = ['bytes', bytes(out).hex()]
                     except Exception as e:
                         res = canon_exc(e)
                     finally:
                         self.in_lib[tid] = False
-                        rec.snap_after = canon_frame(src.live)
-                        rec.ids_after = identity_snapshot(src.live)
+                        rec.snap_after = canon_frame(obj)
+                        rec.ids_after = identity_snapshot(obj)
                         # a caller-side mutation by another thread may have
                         # landed while this call was pre-empted
                         rec.dirty = rec.dirty or src.dirty
@@ -538,7 +576,7 @@ class RunB:
                         rec.version = 0 if src.version == v0 else 1
                     # twin encode: a fresh object with equal contents must
                     # give the same bytes (no stale cache, no hidden state)
-                    twin = structural_copy(src.live)
+                    twin = structural_copy(obj)
                     self.in_lib[tid] = True
                     try:
                         out2 = lib.frame.marshal(twin, ch)
@@ -911,6 +949,20 @@ class RunB:
                 self.fail('C12', 'fresh', ['nondeterministic', kk], what)
                 self.fail('C11', 'fresh', ['history-dependent', kk], what)
             self.model_checks(rec, got)
+        if 'C16' in props:
+            for rec in self.records:
+                if rec.kept is not None and rec.live is not None and \
+                        rec.version == rec.kept_version:
+                    self.oracle('C16.kept_part_unchanged')
+                    now = canon_value(rec.live)
+                    if now != rec.kept:
+                        self.fail('C16', 'kept', ['kept-part-changed'],
+                                  'the caller kept a part of the result of '
+                                  'thread %d op %d and dropped the rest; '
+                                  'later library calls changed it: was %s, '
+                                  'is %s' % (rec.tid, rec.idx,
+                                             json.dumps(rec.kept)[:300],
+                                             json.dumps(now)[:300]))
         # ---- C16 (2): no shared mutable state between separate results
         if 'C16' in props:
             self.oracle('C16.no_sharing')
